@@ -47,13 +47,25 @@ def rule_wouldblock(ctx):
                   "_sockSendAll suspends with %r: an event loop driven by the indication would wait for the "
                   "wrong direction and stall" % y.ast.value.value.value, fs.loc(y.ast))
     hs = [(tr, h, hn) for (tr, h, hn) in g.handlers if norm(h.type or ast.Name(id="")) == "socket.error"]
-    ok = False
-    if len(hs) == 1:
-        h = hs[0][1]
-        ok = len(h.body) == 2 and isinstance(h.body[0], ast.If) and isinstance(h.body[1], ast.Raise) \
-            and h.body[1].exc is None and \
-            norm(h.body[0].test) == "why.args[0] in (errno.EWOULDBLOCK, errno.EAGAIN)" and \
-            [norm(s) for s in h.body[0].body] == ["yield 1", "continue"]
+    from .common import run_block, module_constants
+    from ..condeval import Unknown
+    ERR = {"errno.EWOULDBLOCK": 11, "errno.EAGAIN": 35}
+    consts = module_constants(ctx, "recordlayer", ERR)
+
+    def handler_ok(h, token):
+        """the handler's body, decided for each errno: suspend + retry for the two would-block codes,
+        re-raise for anything else"""
+        try:
+            res = {}
+            for code in (11, 35, 104, 32):
+                env = dict(consts)
+                env[(h.name or "why") + ".args[0]"] = code
+                res[code] = run_block(h.body, env)
+        except (Unknown, TypeError):
+            return False
+        retry = ("continue", ["yield %d" % token, "continue"])
+        return res[11] == retry and res[35] == retry and res[104] == ("raise", ["raise"]) and res[32] == ("raise", ["raise"])
+    ok = len(hs) == 1 and handler_ok(hs[0][1], 1)
     ctx.check(R, ok, fs.qname, "would-block on send: yield 1, retry; other errors re-raised",
               "the send error handler must suspend with 1 and retry for EWOULDBLOCK/EAGAIN and re-raise "
               "everything else", fs.loc())
@@ -85,13 +97,7 @@ def rule_wouldblock(ctx):
     ctx.check(R, okd, fr.qname, "data delivered only when complete", "_sockRecvAll must deliver the buffer exactly "
               "when it holds `length` bytes", fr.loc())
     hr = [(tr, h, hn) for (tr, h, hn) in gr.handlers if norm(h.type or ast.Name(id="")) == "socket.error"]
-    ok = False
-    if len(hr) == 1:
-        h = hr[0][1]
-        ok = len(h.body) == 1 and isinstance(h.body[0], ast.If) and \
-            norm(h.body[0].test) == "why.args[0] in (errno.EWOULDBLOCK, errno.EAGAIN)" and \
-            [norm(s) for s in h.body[0].body] == ["yield 0", "continue"] and \
-            [norm(s) for s in h.body[0].orelse] == ["raise"]
+    ok = len(hr) == 1 and handler_ok(hr[0][1], 0)
     ctx.check(R, ok, fr.qname, "would-block on receive: yield 0, retry; other errors re-raised",
               "the receive error handler must suspend with 0 and retry for EWOULDBLOCK/EAGAIN and re-raise "
               "everything else", fr.loc())
